@@ -88,6 +88,7 @@ package bundle
 //@   props C05 C10
 //@   bounds strict
 //@   requires req.Offset + req.Length <= len(bs)
+//@   assert[response-fills-its-index-slot] before "return res, nil" :: spos(r) == send(r) && send(r) == req.Length
 //@   assigns nothing
 
 //@ func Read
